@@ -27,7 +27,7 @@ func c19Profile() *sm.Profile {
 		Crit:        gen.CritEnv{Val: gen.ValCfg{MaxDepth: 0, JSONSafe: true}, MaxDepth: 2},
 		Weights: []sm.W{{Kind: "createcoll", Weight: 3}, {Kind: "insert", Weight: 10}, {Kind: "updatebyid", Weight: 4}, {Kind: "deletebyid", Weight: 2},
 			{Kind: "createindex", Weight: 4}, {Kind: "dropcoll", Weight: 3}, {Kind: "export", Weight: 14}, {Kind: "reimport", Weight: 18},
-			{Kind: "import", Weight: 10}},
+			{Kind: "import", Weight: 10}, {Kind: "bigimport", Weight: 1}},
 	}
 }
 
@@ -90,7 +90,7 @@ func TestC19(t *testing.T) {
 }
 
 func testC19Histories(t *testing.T) {
-	(&smCheck{property: "C19", kind: "c19", rule: ruleC19, quick: 1500, thorough: 30000, stepsQ: 16, stepsT: 24,
+	(&smCheck{property: "C19", kind: "c19", rule: ruleC19, quick: 1500, thorough: 60000, stepsQ: 16, stepsT: 24,
 		backends: []string{run.Bbolt, run.Bbolt, run.BadgerMem},
 		profile: func(rt *rapid.T) *sm.Profile {
 			p := c19Profile()
